@@ -1806,8 +1806,10 @@ static void vi(void)
 		vi_wait();
 		term_record();
 		ru = (xru & 1) || ((xru & 2) && w_cnt > 1) || ((xru & 4) && opath != ex_path());
-		if (mod & VC_ALT && w_cnt == 1)
+		if (mod & VC_ALT && w_cnt == 1) {
 			vi_switch(w_cur);
+			vi_wfix();	/* the number of rows may have changed */
+		}
 		if (mod & VC_ALT && w_cnt > 1) {
 			char msg[sizeof(vi_msg)];
 			int id = w_cur;
